@@ -102,7 +102,9 @@ def index_values(r, dt, pat, n):
     elif pat == 'wrap':
         # unsigned / narrow integers whose differences do not fit the dtype
         if isf:
-            v = [start + k * step for k in range(n)][::-1]
+            # differences beyond the range of the index dtype (of float32: they are ordinary numbers for the FDOUBL attribute)
+            big = float(np.finfo(d).max) * r.choice([0.9, 0.6])
+            v = r.choice([[-big, big], [-big, 0.0, big], [big, 0.0, -big], [big, -big]])
         else:
             lo, hi = int(info.min), int(info.max)
             v = [hi - 1, lo + 1, hi - 1, lo + 1][:max(2, min(n, 4))] if r.random() < 0.5 else \
